@@ -109,6 +109,8 @@ structure Txn where
   headers : List (String × String)       -- request header map (keys as received)
   query : List (String × String)         -- `parseQuery` of the raw query string: the pairs `Query()` keeps
   status : Nat
+  hasResp : Bool                         -- `APIStream.GetResponse() != nil`: false on the response walk of an
+                                         -- EARLY response (a processor answered the request; no provider response)
 deriving Repr
 
 /-! ### the raw query string (net/url `URL.Query()` = `ParseQuery` with its error ignored) -/
@@ -210,6 +212,7 @@ def isHeadersQualified (f : Flow) (t : Txn) : Bool :=
 def isStatusCodeQualified (f : Flow) (t : Txn) : Bool :=
   if !t.isResp then true
   else if f.statuses.isEmpty then true
+  else if !t.hasResp then false      -- no response to take a status code from: the flow does not qualify
   else f.statuses.contains t.status
 
 /-- `GetAllowedMethods()`: no method filter = every method -/
@@ -420,6 +423,10 @@ def quotasRun (qs : List Flow) (t : Txn) : Except AddErr (List String) :=
       .ok ((r.sysStart.flow ++ r.sysEnd.flow ++ r.user.flow).flatMap fun f =>
         (fl.filter (fun x => x.1.name == f.name)).flatMap (·.2))
     | (none, _) => .ok []
+
+/-- The transaction as the filter tree sees it when `executeReq` turns a short-circuited request into the
+    response walk of its early response: `apiStream.SetType(StreamTypeResponse)`, no response object. -/
+def Txn.early (t : Txn) : Txn := { t with isResp := true, hasResp := false }
 
 /-- Names of the flows `Stream.ExecuteFlow` runs, in execution order: nothing at all when `GetFlow`
     reports `found = false`; else system-start, user, system-end flows (each group reversed on the
